@@ -22,7 +22,7 @@ use std::collections::BTreeMap;
 pub const INFO: PropInfo = PropInfo {
     id: "C07",
     level: "exploration",
-    rule: "driver quote: case = one string s (no NUL). Q=yash_quote::quote(s) is run by the real shell on the simulated OS as `probe Q`, `v=Q; probe \"$v\"`, `x=1 probe Q`, `alias zz=Q`, `arr=(Q Q)`, `export w=Q`; every position must yield exactly the field s; and in command position: with a function named s defined through the harness' own quoting, `x=1 Q arg` and `Q` must call it (not applicable when s is empty, contains a slash, is a reserved word or names a built-in). Exhaustive: all strings up to length 3 (quick) / 4 (thorough) over a 43-character alphabet (; & | ( ) < > space tab newline $ ` \\ \" ' = * ? [ ] { } # ~ : ! ^ % , - U+00A0 U+3000 U+2003 \\x01 \\x7f a Z 0 / CR @ + .), random: strings up to length 40 over that alphabet plus arbitrary Unicode. Non-trivial = s is empty or needs quoting by the harness' own list (special character anywhere, Unicode white space, leading # or ~, `:~`, `{` before `}`, `[` before `]`); exhaustive cases are distinct by index, random ones by serialised case. driver listing: case = (printer, sequence of <=10 definitions: scalar/array assignment, export, readonly, typeset [-x][-r], alias, function definition (own command grammar without here-documents), typeset -fr, set -o/+o OPTION, trap ACTION COND, umask MODE) rendered with the harness' own '...' quoting. Shell 1 runs the definitions, snapshots, prints the listing; a fresh shell 2 evaluates the captured text (alias: as operands of `alias --`; umask: as the operand of `umask`), snapshots; the listed component must be equal (export -p: values + exported; readonly -p: values + read-only; typeset -p: values + both; set: values of variables with a value; alias: name->(replacement, global); typeset -fp: name->(printed body, read-only); set +o: every modifiable option; trap: condition->action; umask/umask -S: the mask, shell 2 starting from the complemented mask). Non-trivial = the listed component has >=2 entries and >=1 listed string needs quoting (functions: >=2 functions and a quote character in a body; set +o: >=2 options differ from the start-up default; umask: the case sets the mask); distinct by serialised case. Plus explicit lists: all 512 masks x {umask, umask -S}, every single option toggle x set +o.",
+    rule: "driver quote: case = one string s (no NUL). Q=yash_quote::quote(s) is run by the real shell on the simulated OS as `probe Q`, `v=Q; probe \"$v\"`, `x=1 probe Q`, `alias zz=Q`, `arr=(Q Q)`, `export w=Q`, with HOME set so that an unquoted tilde (at the start or after a colon in an assignment) would expand visibly; every position must yield exactly the field s; and in command position: with a function named s defined through the harness' own quoting, `x=1 Q arg` and `Q` must call it (not applicable when s is empty, contains a slash, is a reserved word or names a built-in). Exhaustive: all strings up to length 3 (quick) / 4 (thorough) over a 43-character alphabet (; & | ( ) < > space tab newline $ ` \\ \" ' = * ? [ ] { } # ~ : ! ^ % , - U+00A0 U+3000 U+2003 \\x01 \\x7f a Z 0 / CR @ + .), random: strings up to length 40 over that alphabet plus arbitrary Unicode. Non-trivial = s is empty or needs quoting by the harness' own list (special character anywhere, Unicode white space, leading # or ~, `:~`, `{` before `}`, `[` before `]`); exhaustive cases are distinct by index, random ones by serialised case. driver listing: case = (printer, sequence of <=10 definitions: scalar/array assignment, export, readonly, typeset [-x][-r], typeset [-x] -- 'NAME'=value for names that are not identifiers (-n, '-a b', 'a b', q$, -x~), alias, function definition (own command grammar without here-documents), typeset -fr, set -o/+o OPTION, trap ACTION COND, umask MODE) rendered with the harness' own '...' quoting. Shell 1 runs the definitions, snapshots, prints the listing; a fresh shell 2 evaluates the captured text (alias: as operands of `alias --`; umask: as the operand of `umask`), snapshots; the listed component must be equal (export -p: values + exported; readonly -p: values + read-only; typeset -p: values + both; set: values of variables with a value whose names are identifiers - the built-in lists only those; alias: name->(replacement, global); typeset -fp: name->(printed body, read-only); set +o: every modifiable option; trap: condition->action; umask/umask -S: the mask, shell 2 starting from the complemented mask). Non-trivial = the listed component has >=2 entries and >=1 listed string needs quoting (functions: >=2 functions and a quote character in a body; set +o: >=2 options differ from the start-up default; umask: the case sets the mask); distinct by serialised case. Plus explicit lists: all 512 masks x {umask, umask -S}, every single option toggle x set +o.",
     assumptions: &[
         "the simulated OS and the probe built-ins (probe, snap, echo) are trusted",
         "variable names are plain ASCII names v1..v4; only the variables the case defines are compared (the shell's own PPID, IFS, PS1.. are ignored)",
